@@ -412,6 +412,24 @@ def chistories(min_ops=6, max_ops=25, **kw):
 
 # ---------------------------------------------------------------- interpreter
 
+def envbug_risky(tree, recv, dst_abs):
+    """libhdf5 2.0.0 (this sandbox, reproduced with plain h5py): H5Ocopy called on a non-root group with an ABSOLUTE
+    destination checks the existence of the destination relative to that group: it fails with 'destination object
+    already exists' when <group>/<destination> exists, and with 'message type not found' when a prefix of that path is
+    a dataset. Such calls are issued from the root group instead (same meaning)."""
+    if recv == "/":
+        return False
+    cur = recv
+    for sg in split(dst_abs):
+        cur = join(cur, sg)
+        n = tree.lookup(cur)
+        if n is None:
+            return False
+        if n.kind == "d":
+            return True
+    return True
+
+
 class EnvBug(Exception):
     """A failure of the trusted base (libhdf5) made the case inconclusive."""
 
@@ -527,11 +545,10 @@ class CSession:
             if kind == "move" and isinstance(op[2], int) and op[2] % 3 != 0 and self._annotated_or_ancestor(op[2]):
                 hop[2] = self._annotated_or_ancestor(op[2])  # literal absolute path of an annotated node / ancestor
             for b in H.bind(hop, tree):
-                if b["op"] == "move" and b["recv"] != "/" and any(t.driver == "h5" for t in self.targets) and split(b["dst_abs"]):
-                    top = tree.lookup(join(b["recv"], split(b["dst_abs"])[0]))
-                    if top is not None and top.kind == "d":  # libhdf5 2.0 bug with absolute destinations (see EnvBug)
-                        b = dict(b, recv="/", src=b["src_abs"], dst=b["dst_abs"])
-                        self.classes.add("receiver_switched_to_root_env_bug")
+                if b["op"] == "move" and any(t.driver == "h5" for t in self.targets) and split(b["dst_abs"]) \
+                        and envbug_risky(tree, b["recv"], b["dst_abs"]):
+                    b = dict(b, recv="/", src=b["src_abs"], dst=b["dst_abs"])
+                    self.classes.add("receiver_switched_to_root_env_bug")
                 if not H.bound_is_generated(b) or any(s.startswith(PREF) for s in split(b.get("abs", "") or "") + split(b.get("dst_abs", "") or "")):
                     continue
 
@@ -613,12 +630,10 @@ class CSession:
                 dst_abs = join(recv, dst)
             if dst_abs == src_abs and False:
                 return
-            if recv != "/" and any(t.driver == "h5" for t in self.targets):
-                top = tree.lookup(join(recv, split(dst_abs)[0])) if split(dst_abs) else None
-                if top is not None and top.kind == "d":
-                    # would run into the libhdf5 2.0 H5Ocopy bug (see EnvBug): use the root as receiver instead
-                    recv, dst = "/", dst_abs
-                    self.classes.add("receiver_switched_to_root_env_bug")
+            if any(t.driver == "h5" for t in self.targets) and split(dst_abs) and envbug_risky(tree, recv, dst_abs):
+                # would run into the libhdf5 2.0 H5Ocopy bug (see envbug_risky): use the root as receiver instead
+                recv, dst = "/", dst_abs
+                self.classes.add("receiver_switched_to_root_env_bug")
             info = dict(src=src_abs, dst=dst_abs, form=form, without_attrs=without_attrs, without_meta=without_meta)
 
             def fm(model):
